@@ -64,6 +64,27 @@ void prop_c06(hz::Ctx &ctx) {
       if (!v.ok) ctx.fail(fail06(c, v));
     }
   }
+  // (1b) long programs (several growths of the library-managed buffer inside one call / across calls)
+  {
+    hz::Rng r(ctx.seed ^ 0x60b); int nlong = ctx.thorough() ? 400 : 48;
+    for (int t = 0; t < nlong; t++) {
+      int combo = (int)r.below(12); int nlines = 800 + (int)r.below(4000); int ncalls = 1 + (int)r.below(4); uint64_t ls = r.next();
+      if (!ctx.take()) continue;
+      std::string id = "C06L|" + std::to_string(combo) + "|" + std::to_string(nlines) + "|" + std::to_string(ncalls) + "|" + std::to_string(ls) + "|" + std::to_string(ctx.seed);
+      if (!ctx.begin(id, "long program on the library-managed buffer")) continue;
+      ctx.cls("part:long-internal"); ctx.nontrivial(id);
+      HV v; hz::Rng lr(ls); std::vector<uint8_t> want; std::vector<std::string> calls(ncalls);
+      for (int i = 0; i < nlines; i++) { const std::string &l = P.lines[lr.below(P.lines.size())]; auto b = solo(l, combo); want.insert(want.end(), b.begin(), b.end()); calls[(size_t)i * ncalls / nlines] += l + "\n"; }
+      assemblyline_t a = asm_create_instance(nullptr, 0); al::apply_opts(a, combo_opts(combo)); int rc = 0; for (auto &cl : calls) if (!cl.empty() && (rc = asm_assemble_str(a, cl.c_str())) != 0) break;
+      int off = asm_get_offset(a);
+      if (rc != 0) { v.ok = false; v.symptom = "rejected"; v.detail = "a call failed on the library-managed buffer"; }
+      else if (off != (int)want.size()) { v.ok = false; v.symptom = "offset"; v.detail = "final offset " + std::to_string(off) + " ; want " + std::to_string(want.size()); }
+      else if (memcmp(asm_get_code(a), want.data(), want.size())) { size_t d = 0; const uint8_t *g = (const uint8_t *)asm_get_code(a); while (g[d] == want[d]) d++; v.ok = false; v.symptom = "bytes"; v.detail = "library-managed buffer differs from the concatenation of the lines' own code at byte " + std::to_string(d) + " of " + std::to_string(want.size()); }
+      asm_destroy_instance(a);
+      if (ctx.want_sample()) ctx.put_sample(std::to_string(nlines) + " lines (" + std::to_string(want.size()) + " bytes) in " + std::to_string(ncalls) + " call(s) on the library-managed buffer -> " + (v.ok ? "concatenation" : v.symptom));
+      if (!v.ok) { hz::Failure f; f.caseid = id; f.text = std::to_string(nlines) + " pool lines in " + std::to_string(ncalls) + " calls, library-managed buffer"; f.symptom = v.symptom; f.detail = v.detail; f.tags = {"mn:program", "form:long-internal", "sym:" + v.symptom}; ctx.fail(f); }
+    }
+  }
   // (2) random longer programs, all ways of splitting, start offsets, prefill (rapidcheck, shrinking)
   auto gen_case = rc::gen::apply([&P](std::vector<int> idx, std::vector<bool> cutflags, int start, int prefill, int combo, bool noise) {
     C06Case c; if (idx.empty()) idx.push_back(0);
@@ -125,7 +146,10 @@ static HV check13(const ChunkCase &k, size_t *pads = nullptr) {
   size_t half = k.lines.size() / 2;
   std::vector<std::pair<std::vector<std::string>, bool>> parts;
   if (k.toggle == 0 || k.lines.size() < 2) { parts.push_back({k.lines, true}); }
-  else { std::vector<std::string> A(k.lines.begin(), k.lines.begin() + half), B(k.lines.begin() + half, k.lines.end()); parts.push_back({A, k.toggle == 2}); parts.push_back({B, k.toggle == 1}); }
+  else if (k.toggle == 3 && k.lines.size() >= 3) { // on, off, on again with the same chunk size
+    size_t t1 = k.lines.size() / 3, t2 = 2 * k.lines.size() / 3; if (t1 == 0) t1 = 1; if (t2 <= t1) t2 = t1 + 1;
+    parts.push_back({std::vector<std::string>(k.lines.begin(), k.lines.begin() + t1), true}); parts.push_back({std::vector<std::string>(k.lines.begin() + t1, k.lines.begin() + t2), false}); parts.push_back({std::vector<std::string>(k.lines.begin() + t2, k.lines.end()), true}); }
+  else { std::vector<std::string> A(k.lines.begin(), k.lines.begin() + half), B(k.lines.begin() + half, k.lines.end()); parts.push_back({A, k.toggle == 2}); parts.push_back({B, k.toggle == 1 || k.toggle == 3}); }
   size_t li = 0; size_t pos = k.start; size_t req_total = 0;
   for (auto &pt : parts) {
     asm_set_chunk_size(a, pt.second ? (size_t)k.c : 1);
@@ -180,6 +204,7 @@ void prop_c13(hz::Ctx &ctx) {
     if (!ctx.take()) continue;
     ChunkCase k; k.c = c; k.start = start; k.combo = (int)((c + s + r) % 12);
     k.lines = shape == 0 ? std::vector<std::string>{reps[r], reps[(r + s) % reps.size()]} : std::vector<std::string>{reps[(r * 7 + 3) % reps.size()], reps[r], reps[(r + 1) % reps.size()]};
+    if (shape == 1 && (s + r) % 4 == 0) k.toggle = 3;   // fitting on for line 1, off for line 2, on again (same size) for line 3
     std::string id = serck(k); if (!ctx.begin(id, join(k.lines, "\\n"))) continue;
     size_t pads = 0; HV v = check13(k, &pads);
     ctx.cls("part:exhaustive"); if (pads) { ctx.cls("pad:required"); ctx.nontrivial(std::to_string(c) + "/" + std::to_string(start % c) + "/" + std::to_string(solo(k.lines[shape ? 1 : 0], k.combo).size())); }
@@ -190,7 +215,7 @@ void prop_c13(hz::Ctx &ctx) {
   auto gen_case = rc::gen::apply([&P](std::vector<int> idx, int c, int start, int combo, int toggle) {
     ChunkCase k; if (idx.empty()) idx.push_back(1); for (int i : idx) k.lines.push_back(P.lines[(size_t)i % P.lines.size()]);
     static const int CS[] = {0, 1, 2, 3, 4, 5, 7, 8, 11, 12, 13, 15, 16, 17, 24, 31, 32, 33, 64, 100, 128, 4096}; k.c = CS[c % 22]; k.start = start; k.combo = combo; k.toggle = toggle; return k; },
-    rc::gen::container<std::vector<int>>(range(0, 1 << 20)), range(0, 22), range(0, 300), range(0, 12), range(0, 3));
+    rc::gen::container<std::vector<int>>(range(0, 1 << 20)), range(0, 22), range(0, 300), range(0, 12), range(0, 4));
   rc_rounds(ctx, "C13-programs", ctx.thorough() ? 200000 : 20000, 60, [&]() {
     ChunkCase k = *gen_case; std::string id = serck(k); if (!ctx.begin(id, join(k.lines, "\\n").substr(0, 300))) return;
     size_t pads = 0; HV v = check13(k, &pads);
@@ -332,7 +357,7 @@ static std::string text15(const Pool &P, const HCmd &h) {
     case 2: snprintf(b, sizeof b, "asm_set_offset(%d)", h.a % 4096); return b;
     case 3: return "asm_assemble_str(<" + std::to_string(1 + h.b % 12) + " valid lines #" + std::to_string(h.a) + ">)";
     case 4: return "asm_assemble_str(<program #" + std::to_string(h.a) + " with a bad line>)";
-    case 5: snprintf(b, sizeof b, "asm_assemble_string_counting_chunks(<program #%d>, %d)", h.a, CHUNKS15[h.c % 8]); return b;
+    case 5: snprintf(b, sizeof b, "asm_assemble_string_counting_chunks(<program #%d%s>, %d)", h.a, (h.a % 3) == 0 ? " with a bad line" : "", CHUNKS15[h.c % 8]); return b;
     case 6: return "create bystander"; case 7: return "destroy bystander"; case 8: return "bystander assembles"; case 9: return std::string("bystander ") + SETTER[h.a % 5] + "(" + valname(h.b) + ")";
   }
   (void)P; return "?";
@@ -343,7 +368,7 @@ struct CallOut { int rc = 0, off = 0, cnt = 0; };
 static CallOut do_call(assemblyline_t a, const Pool &P, const HCmd &h) {
   CallOut o;
   if (h.kind == 3 || h.kind == 4) { std::string p = program_for(P, h.a, h.b, h.kind == 4 ? h.c : -1); o.rc = asm_assemble_str(a, p.c_str()); }
-  else { std::string p = program_for(P, h.a, h.b, -1); std::vector<char> w(p.begin(), p.end()); w.push_back(0); o.rc = asm_assemble_string_counting_chunks(a, w.data(), CHUNKS15[h.c % 8], &o.cnt); }
+  else { std::string p = program_for(P, h.a, h.b, (h.a % 3) == 0 ? h.a : -1); std::vector<char> w(p.begin(), p.end()); w.push_back(0); o.rc = asm_assemble_string_counting_chunks(a, w.data(), CHUNKS15[h.c % 8], &o.cnt); }
   o.off = asm_get_offset(a); return o;
 }
 static HV check15(const Pool &P, const C15Case &c) {
@@ -352,10 +377,11 @@ static HV check15(const Pool &P, const C15Case &c) {
   std::vector<uint8_t> buf(N, 0xcc), fresh(N, 0xcc); std::vector<std::vector<uint8_t>> obuf(2, std::vector<uint8_t>(4096, 0)); assemblyline_t other[2] = {nullptr, nullptr};
   assemblyline_t a = asm_create_instance(buf.data(), N), f = asm_create_instance(fresh.data(), N);
   int explicit_off = 0; bool after_failure = false;
+  Model mopt; int last_chunk = -1;   // the CURRENT options and chunk setting are all the fresh instance gets
   for (auto &h : c.hist) {
     switch (h.kind) {
-      case 0: real_apply(a, h.a % 5, h.b); real_apply(f, h.a % 5, h.b); break;
-      case 1: asm_set_chunk_size(a, CHUNKS15[h.a % 8]); asm_set_chunk_size(f, CHUNKS15[h.a % 8]); break;
+      case 0: real_apply(a, h.a % 5, h.b); model_apply(mopt, h.a % 5, h.b); break;
+      case 1: asm_set_chunk_size(a, CHUNKS15[h.a % 8]); last_chunk = CHUNKS15[h.a % 8]; break;
       case 2: asm_set_offset(a, h.a % 4096); explicit_off = h.a % 4096; after_failure = false; break;
       case 3: case 4: case 5: {
         int start = asm_get_offset(a);
@@ -373,6 +399,8 @@ static HV check15(const Pool &P, const C15Case &c) {
       case 9: { int i = h.c & 1; if (other[i]) real_apply(other[i], h.a % 5, h.b); break; }
     }
   }
+  asm_mov_imm(f, (enum asm_opt)mopt.mov); asm_sib_index_base_swap(f, (enum asm_opt)mopt.swap); asm_sib_no_base(f, (enum asm_opt)mopt.nobase);
+  if (last_chunk >= 2) asm_set_chunk_size(f, last_chunk);
   asm_set_offset(a, c.k); asm_set_offset(f, c.k);
   CallOut oa = do_call(a, P, c.final), of = do_call(f, P, c.final);
   std::string prog = program_for(P, c.final.a, c.final.b, c.final.kind == 4 ? c.final.c : -1);
@@ -407,8 +435,8 @@ void prop_c15(hz::Ctx &ctx) {
     if (ctx.want_sample()) ctx.put_sample(text15(P, c).substr(0, 300) + " -> " + (v.ok ? "same as on a fresh instance" : v.detail));
     if (!v.ok) { hz::Failure f = fail15(P, c, v); if (viarc && ctx.match_known(f.tags).empty()) { rc_report(f); RC_FAIL(v.detail); } else ctx.fail(f); } };
   // exhaustive: all histories of length <= 3 over a small alphabet, several final calls
-  std::vector<HCmd> alpha = {{0, 0, 0, 0}, {0, 4, 1, 0}, {1, 5, 0, 0}, {1, 0, 0, 0}, {2, 100, 0, 0}, {3, 7, 2, 0}, {4, 8, 2, 1}, {5, 9, 2, 5}, {5, 9, 2, 0}, {6, 0, 1, 0}, {7, 0, 0, 0}, {8, 0, 0, 0}};
-  std::vector<HCmd> finals = {{3, 21, 3, 0}, {4, 22, 3, 1}, {5, 23, 3, 5}};
+  std::vector<HCmd> alpha = {{0, 0, 0, 0}, {0, 4, 1, 0}, {1, 5, 0, 0}, {1, 0, 0, 0}, {2, 100, 0, 0}, {3, 7, 2, 0}, {4, 8, 2, 1}, {5, 9, 2, 5}, {5, 10, 2, 5}, {5, 10, 2, 0}, {6, 0, 1, 0}, {7, 0, 0, 0}, {8, 0, 0, 0}};
+  std::vector<HCmd> finals = {{3, 22, 3, 0}, {4, 22, 3, 1}, {5, 23, 3, 5}};
   std::vector<std::vector<HCmd>> hs{{}};
   for (auto &x : alpha) hs.push_back({x});
   for (auto &x : alpha) for (auto &y : alpha) hs.push_back({x, y});
@@ -422,6 +450,14 @@ void prop_c15(hz::Ctx &ctx) {
 // ===================================================================== replay
 int replay_hist(const std::string &prop, const std::string &caseid, uint64_t seed) {
   hz::Ctx ctx; ctx.seed = seed;
+  if (caseid.compare(0, 5, "C06L|") == 0) {
+    auto f = split(caseid, '|'); if (f.size() != 6) return 2; int combo = atoi(f[1].c_str()), nlines = atoi(f[2].c_str()), ncalls = atoi(f[3].c_str()); uint64_t ls = strtoull(f[4].c_str(), nullptr, 10); ctx.seed = strtoull(f[5].c_str(), nullptr, 10);
+    const Pool &P = pool(ctx); hz::Rng lr(ls); std::vector<uint8_t> want; std::vector<std::string> calls(ncalls);
+    for (int i = 0; i < nlines; i++) { const std::string &l = P.lines[lr.below(P.lines.size())]; auto b = solo(l, combo); want.insert(want.end(), b.begin(), b.end()); calls[(size_t)i * ncalls / nlines] += l + "\n"; }
+    assemblyline_t a = asm_create_instance(nullptr, 0); al::apply_opts(a, combo_opts(combo)); int rc = 0; for (auto &cl : calls) if (!cl.empty() && (rc = asm_assemble_str(a, cl.c_str())) != 0) break;
+    bool ok = rc == 0 && asm_get_offset(a) == (int)want.size() && !memcmp(asm_get_code(a), want.data(), want.size()); asm_destroy_instance(a);
+    printf("%d lines in %d calls on the library-managed buffer: %s\n", nlines, ncalls, ok ? "OK" : "FAIL"); return ok ? 0 : 1;
+  }
   if (caseid.compare(0, 4, "C06|") == 0) { C06Case c; if (!parse06(caseid, c)) return 2; HV v = check06(c); printf("%s", join(c.lines).c_str()); if (v.ok) { printf("OK\n"); return 0; } printf("FAIL %s : %s\n", v.symptom.c_str(), v.detail.c_str()); return 1; }
   if (caseid.compare(0, 4, "C13|") == 0 || caseid.compare(0, 4, "C14|") == 0) { ChunkCase k; if (!parseck(caseid, k)) return 2; HV v = k.counting ? check14(k) : check13(k); printf("%s[chunk %d, start %d]\n", join(k.lines).c_str(), k.c, k.start); if (v.ok) { printf("OK\n"); return 0; } printf("FAIL %s : %s\n", v.symptom.c_str(), v.detail.c_str()); return 1; }
   if (caseid.compare(0, 4, "C12|") == 0) { std::vector<SetCmd> h; int n = 1; if (!parse12(caseid, h, n)) return 2; HV v = check12(h, n); printf("%s\n", text12(h).c_str()); if (v.ok) { printf("OK\n"); return 0; } printf("FAIL %s : %s\n", v.symptom.c_str(), v.detail.c_str()); return 1; }
